@@ -1,5 +1,79 @@
-import GoRedisModel.Model.Show
-/-! placeholder until the theorems of C20 are written -/
+import GoRedisModel.Proofs.Spans
+/-! # C20 — tracing spans are balanced for every request outcome
+
+`spanRun` (in `Proofs/Spans`) is the span discipline as a depth machine over the trace: a root span is
+started only when none is open; a child span only under an open root; `FinishSpan` pops a child that is
+open; the root is finished exactly once, when no child is open.  With span ids handed out in start order
+this is the statement "every span is started once and finished once, a child starts after its parent has
+started and finishes before its parent finishes, one root per request". -/
 namespace GoRedis
-theorem C20_placeholder : True := trivial
+
+def Balanced (evs : List Ev) : Prop := spanRun evs none = some none
+
+/-- the run ended in a recovered panic -/
+def crashed : List Ev → Bool
+  | [] => false
+  | .crash :: _ => true
+  | _ :: es => crashed es
+
+theorem crashed_of_mem (evs : List Ev) (h : Ev.crash ∈ evs) : crashed evs = true := by
+  induction evs with
+  | nil => simp at h
+  | cons e es ih =>
+    cases e <;> simp [crashed] at h ⊢ <;> exact ih h
+
+/-- For every client byte stream (valid or not, ended anywhere), every server state, authorized or not,
+and every sequence of handler results: unless the run ends in a recovered panic (C07's subject), the span
+events of the whole connection are balanced — whatever the outcome of each request: success, argument
+error, unknown command, unauthorized, QUIT, protocol error, end of stream. -/
+theorem C20_balanced (pf : FloatOracle) (srv : SrvSt) (requirePass : Bool) (input : Bytes) (script : List HRes)
+    (hc : crashed (serve pf srv requirePass input script) = false) :
+    Balanced (serve pf srv requirePass input script) := by
+  have hc : Ev.crash ∉ serve pf srv requirePass input script := by
+    intro h; rw [crashed_of_mem _ h] at hc; exact absurd hc (by decide)
+  unfold Balanced serve
+  simp only [List.cons_append, List.nil_append, spanRun]
+  rw [serveLoop_spans]
+  · rfl
+  · intro h; apply hc; simp [serve, h]
+
+/-- Every command executor, including the ones composed from other commands (STRLEN→GET, HLEN→HKEYS→HGETALL,
+SUBSTR→GETRANGE, …), leaves the span stack as it found it on every returning path, for all arguments, all
+connection states and all handler results. -/
+theorem C20_executor_balanced (pf : FloatOracle) (srv : SrvSt) (conn : ConnSt) (cmd : Bytes) (args : List Msg) :
+    Bal 0 (executeCommand pf srv conn cmd args) := bal_executeCommand pf srv conn cmd args
+
+/-- One request: root's children closed, root finished, nothing left open. -/
+theorem C20_request_block (pf : FloatOracle) (srv : SrvSt) (conn : ConnSt) (m : Msg) (script : List HRes)
+    (hc : Ev.crash ∉ (reqStep pf srv conn m script).evs) :
+    spanRun ([Ev.rootStart, .spanStart b!"parse", .spanFinish] ++ (reqStep pf srv conn m script).evs) none = some none := by
+  have := reqStep_spans pf srv conn m script hc []
+  simp only [List.append_nil] at this
+  simp [spanRun, this]
+
+/-! ## Non-vacuity: concrete pipelines, evaluated -/
+
+def noFloats : FloatOracle := fun _ => none
+
+/-- SET, STRLEN (composed), an unknown command, GET without its argument, HLEN (two levels of composition), QUIT,
+and a PING pipelined behind the QUIT -/
+def samplePipeline : Bytes :=
+  b!"*3\r\n$3\r\nSET\r\n$1\r\nk\r\n$3\r\nabc\r\n*2\r\n$6\r\nSTRLEN\r\n$1\r\nk\r\n*1\r\n$6\r\nNOSUCH\r\n*1\r\n$3\r\nGET\r\n*2\r\n$4\r\nHLEN\r\n$1\r\nh\r\n*1\r\n$4\r\nQUIT\r\n*1\r\n$4\r\nPING\r\n"
+
+example : crashed (serve noFloats {} false samplePipeline [{ msg := .arr [] }]) = false := by decide +kernel
+example : Balanced (serve noFloats {} false samplePipeline [{ msg := .arr [] }]) := by
+  apply C20_balanced; decide +kernel
+
+/-- unauthorized connection: every command but AUTH is refused, spans still balanced -/
+example : Balanced (serve noFloats { authPw := some b!"secret" } true b!"*1\r\n$4\r\nPING\r\n*2\r\n$3\r\nGET\r\n$1\r\nk\r\n" []) := by
+  apply C20_balanced; rfl
+
+/-- stream cut inside a request -/
+example : Balanced (serve noFloats {} false b!"*1\r\n$4\r\nPING\r\n*2\r\n$3\r\nGE" []) := by
+  apply C20_balanced; rfl
+
+/-- the discipline rejects a double finish and an unfinished child (the machine is not vacuous) -/
+example : spanRun [.rootStart, .spanStart b!"x", .spanFinish, .spanFinish] none = none := by decide
+example : spanRun [.rootStart, .spanStart b!"x", .topFinish] none = none := by decide
+
 end GoRedis
